@@ -19,20 +19,37 @@ VIEW_ENV = {'immutable_param_types': ['std::string', 'std::vector', 'std::map', 
 
 
 def ensure_workdir() -> str:
-    """Create (once per process tree) the scratch cwd with the data symlink and chdir into it."""
+    """Create (once per process) the scratch cwd with the data symlink and chdir into it."""
     global _WORKDIR, _OWNER_PID
-    if _WORKDIR is None:
+    if _WORKDIR is None or _OWNER_PID != os.getpid():
+        parent = _WORKDIR
         _WORKDIR = tempfile.mkdtemp(prefix='tranp-verif-')
         _OWNER_PID = os.getpid()
         os.symlink(os.path.join(REPO, 'data'), os.path.join(_WORKDIR, 'data'))
+        if parent and os.path.isdir(os.path.join(parent, '.cache')):
+            # forked worker: private copy of the parent's warm cache, so that workers never share cache files
+            shutil.copytree(os.path.join(parent, '.cache'), os.path.join(_WORKDIR, '.cache'))
         atexit.register(_cleanup)
     os.chdir(_WORKDIR)
     return _WORKDIR
 
 
+def on_fork() -> None:
+    """Called by the pool in every forked worker: never share the parent's scratch directory."""
+    if _WORKDIR is not None:
+        ensure_workdir()
+
+
 def _cleanup() -> None:
     if _WORKDIR and _OWNER_PID == os.getpid():
+        try:
+            os.chdir('/')
+        except OSError:
+            pass
         shutil.rmtree(_WORKDIR, ignore_errors=True)
+
+
+cleanup = _cleanup
 
 
 class Session:
